@@ -129,7 +129,7 @@ pub fn plan(p: &EpParams) -> Plan {
         episodes: c.exhaustive_count() + random_chunks(p) + api_chunks(p),
         exhaustive: true,
         rule: format!(
-            "inputs: exhaustive family P.x.M.y with P in {{projects/}} + {} single-character edits, M in {} variants of /topics/ and /subscriptions/ (all single edits, double deletions/substitutions/swaps, foreign segments), x in Sigma^0..2 (0..3 for the literal segments), y in Sigma^0..3 (0..4 for the literals), Sigma={{a,1,-,/,e-acute,s}}; plus random longer strings with the fixed segments at shifted offsets; plus Create->echo->Get round trips through the gRPC API. Both parsers see every string. Non-trivial/distinct: distinct strings accepted by at least one parser (hash set per shard, capped at 20000 keys per shard; the uncapped per-shard count is in monitor_counters.accepted_distinct).",
+            "inputs: exhaustive family P.x.M.y with P in {{projects/}} + {} single-character edits, M in {} variants of /topics/ and /subscriptions/ (all single edits, double deletions/substitutions/swaps, foreign segments), x in Sigma^0..2 (0..3 for the literal segments), y in Sigma^0..3 (0..4 for the literals), Sigma={{a,1,-,/,e-acute,s}}; plus random longer strings with the fixed segments at shifted offsets; plus Create->echo->Get round trips through the gRPC API, including twin names that share a prefix of 8 to ~4000 bytes and differ in the last byte of the ID or of the project (distinct resources, echoed whole). Both parsers see every string. Non-trivial/distinct: distinct strings accepted by at least one parser (hash set per shard, capped at 20000 keys per shard; the uncapped per-shard count is in monitor_counters.accepted_distinct).",
             c.pres.len(),
             c.mids.len()
         ),
@@ -364,6 +364,68 @@ async fn api_round_trips(p: &EpParams) -> (EpReport, u64) {
                 if st.code() as i32 != INVALID_ARGUMENT && st.code() as i32 != ALREADY_EXISTS {
                     rep.viol("C18", format!("C18:create-status:{}", st.code() as i32), format!("{:?}", s));
                 }
+            }
+        }
+    }
+    // names that differ only far from their beginning denote different resources (and long names
+    // are echoed whole): twins sharing a prefix of L bytes, in the ID and in the project
+    for l in [8usize, 200, 255, 256, 257, 300, 1000 + rng.below(3000) as usize] {
+        let stem: String = (0..l).map(|i| (b'a' + ((i * 7 + l) % 26) as u8) as char).collect();
+        for in_project in [false, true] {
+            let (x, y, sx, sy) = if in_project {
+                (format!("projects/{}x/topics/t", stem), format!("projects/{}y/topics/t", stem), format!("projects/{}x/subscriptions/s", stem), format!("projects/{}y/subscriptions/s", stem))
+            } else {
+                (format!("projects/q/topics/{}x", stem), format!("projects/q/topics/{}y", stem), format!("projects/q/subscriptions/{}x", stem), format!("projects/q/subscriptions/{}y", stem))
+            };
+            n += 1;
+            let Ok(echo_x) = cx.create_topic(&x).await else {
+                rep.viol("C18", "C18:long-name-rejected:topic", format!("CreateTopic of a well-formed name of {} bytes was rejected", x.len()));
+                continue;
+            };
+            if echo_x != x {
+                rep.viol("C18", "C18:echo-differs:topic", format!("CreateTopic of a well-formed name of {} bytes echoed a different name of {} bytes", x.len(), echo_x.len()));
+            }
+            if let Ok(got) = cx.get_topic(&y).await {
+                rep.viol("C18", "C18:distinct-names-same-resource:topic", format!("GetTopic of a name never created ({} bytes, differs from the created one in its last ID/project byte) answered {} bytes", y.len(), got.len()));
+            }
+            match cx.create_topic(&y).await {
+                Ok(_) => {}
+                Err(st) => rep.viol("C18", "C18:distinct-names-same-resource:topic", format!("CreateTopic of the twin name answered {} {}", st.code() as i32, st.message().chars().take(80).collect::<String>())),
+            }
+            // subscriptions likewise, x on topic x
+            match cx.create_sub(&sx, &x, 10).await {
+                Ok(v) => {
+                    if v.name != sx || v.topic != x {
+                        rep.viol("C18", "C18:echo-differs:subscription", format!("CreateSubscription of a well-formed name of {} bytes echoed name of {} bytes on a topic of {} bytes (sent {})", sx.len(), v.name.len(), v.topic.len(), x.len()));
+                    }
+                    if cx.get_sub(&sy).await.is_ok() {
+                        rep.viol("C18", "C18:distinct-names-same-resource:subscription", format!("GetSubscription of a name never created ({} bytes) found a subscription", sy.len()));
+                    }
+                    match cx.create_sub(&sy, &y, 10).await {
+                        Ok(v2) => {
+                            if v2.topic != y {
+                                rep.viol("C18", "C18:distinct-names-same-resource:topic", format!("the twin subscription is attached to a topic of {} bytes that is not the twin topic", v2.topic.len()));
+                            }
+                        }
+                        Err(st) => rep.viol("C18", "C18:distinct-names-same-resource:subscription", format!("CreateSubscription of the twin name answered {} {}", st.code() as i32, st.message().chars().take(80).collect::<String>())),
+                    }
+                }
+                Err(st) => rep.viol("C18", "C18:long-name-rejected:subscription", format!("CreateSubscription of a well-formed name of {} bytes answered {}", sx.len(), st.code() as i32)),
+            }
+            // a message published to x reaches x's subscription only
+            if cx.publish(&x, &[Msg::tagged("tw")]).await.is_ok() {
+                let on_y = cx.pull(&sy, 10, true).await.map(|d| d.len()).unwrap_or(0);
+                let on_x = cx.pull(&sx, 10, true).await.map(|d| d.len()).unwrap_or(0);
+                if on_y != 0 || on_x != 1 {
+                    rep.viol("C18", "C18:distinct-names-same-resource:topic", format!("a message published to the first twin topic: {} on its subscription, {} on the other twin's", on_x, on_y));
+                }
+            }
+            rep.inc("twin_names_checked");
+            for nm in [&sx, &sy] {
+                let _ = cx.delete_sub(nm).await;
+            }
+            for nm in [&x, &y] {
+                let _ = cx.delete_topic(nm).await;
             }
         }
     }
